@@ -261,25 +261,33 @@ theorem pathPipeline_decoded (p P : Str) (hp : hasPrefixSlash p = true) (h : une
       rw [hj]; exact escapedPath_prefixSlash ⟨P, escapedPath u1⟩ hP (Or.inr (escapedPath_prefixSlash u1 hP hr1))
 
 /-! ## query: parse ∘ encode -/
+theorem splitOn_cons_eq (sep : UInt8) (r : Str) : splitOn sep (sep :: r) = [] :: splitOn sep r := by
+  rw [splitOn]; simp
+
+theorem splitOn_cons_ne (sep c : UInt8) (r s : Str) (ss : List Str) (h : c ≠ sep) (hs : splitOn sep r = s :: ss) :
+    splitOn sep (c :: r) = (c :: s) :: ss := by
+  rw [splitOn]; simp [h, hs]
+
+theorem cut_cons (sep c : UInt8) (r : Str) :
+    cut sep (c :: r) = if c = sep then ([], r) else ((c :: (cut sep r).1), (cut sep r).2) := by
+  rw [cut]
+
 theorem splitOn_nosep (sep : UInt8) (a : Str) (h : sep ∉ a) : splitOn sep a = [a] := by
   induction a with
   | nil => simp [splitOn]
   | cons c a ih =>
     have hc : c ≠ sep := by intro hc; exact h (by simp [hc])
     have ha : sep ∉ a := by intro ha; exact h (by simp [ha])
-    unfold splitOn
-    simp [hc, ih ha]
+    exact splitOn_cons_ne sep c a a [] hc (ih ha)
 
 theorem splitOn_append_sep (sep : UInt8) (a rest : Str) (h : sep ∉ a) :
     splitOn sep (a ++ sep :: rest) = a :: splitOn sep rest := by
   induction a with
-  | nil => simp [splitOn]
+  | nil => simp [splitOn_cons_eq]
   | cons c a ih =>
     have hc : c ≠ sep := by intro hc; exact h (by simp [hc])
     have ha : sep ∉ a := by intro ha; exact h (by simp [ha])
-    show splitOn sep (c :: (a ++ sep :: rest)) = _
-    unfold splitOn
-    simp [hc, ih ha]
+    exact splitOn_cons_ne sep c (a ++ sep :: rest) a (splitOn sep rest) hc (ih ha)
 
 theorem splitOn_joinWith (sep : UInt8) (segs : List Str) (hne : segs ≠ []) (h : ∀ s ∈ segs, sep ∉ s) :
     splitOn sep (joinWith [sep] segs) = segs := by
@@ -296,12 +304,12 @@ theorem splitOn_joinWith (sep : UInt8) (segs : List Str) (hne : segs ≠ []) (h 
 
 theorem cut_append (sep : UInt8) (a b : Str) (h : sep ∉ a) : cut sep (a ++ sep :: b) = (a, b) := by
   induction a with
-  | nil => simp [cut]
+  | nil => simp [cut_cons]
   | cons c a ih =>
     have hc : c ≠ sep := by intro hc; exact h (by simp [hc])
     have ha : sep ∉ a := by intro ha; exact h (by simp [ha])
     show cut sep (c :: (a ++ sep :: b)) = _
-    unfold cut
+    rw [cut_cons]
     simp [hc, ih ha]
 
 /-- bytes produced by `QueryEscape`: never `&`, `=`, `;` -/
@@ -313,12 +321,12 @@ theorem escape_query_safe (s : Str) : ∀ b ∈ escape .query s, b ≠ 38 ∧ b 
     unfold escape at hb
     by_cases he : shouldEscape c .query = true
     · simp only [he, if_true] at hb
-      by_cases hs : c = 32 ∧ Mode.query = Mode.query
+      by_cases hs : c = 32
       · simp only [hs, and_self, if_true, List.mem_cons] at hb
         rcases hb with hb | hb
         · subst hb; decide
         · exact ih b hb
-      · simp only [hs, if_false, List.mem_cons] at hb
+      · simp only [hs, false_and, if_false, List.mem_cons] at hb
         have hu := upperhex_safe c
         rcases hb with hb | hb | hb | hb
         · subst hb; decide
@@ -501,5 +509,215 @@ theorem valuesOf_regroup (k : Str) (ps : List (Str × Str)) : valuesOf k (regrou
   · simp only [h, if_false]
     rw [mem_sortedKeys] at h
     exact (valuesOf_nil_of_not_key k ps h).symm
+
+/-! ## header maps -/
+theorem get?_cons (k' : Str) (vv : List Str) (rest : Hdr) (k : Str) :
+    Hdr.get? ((k', vv) :: rest) k = if k' = k then some vv else Hdr.get? rest k := by
+  rw [Hdr.get?]
+
+theorem get?_nil (k : Str) : Hdr.get? [] k = none := by rw [Hdr.get?]
+
+theorem get?_del (h : Hdr) (k k' : Str) : (h.del k').get? k = if k = k' then none else h.get? k := by
+  induction h with
+  | nil => simp [Hdr.del, get?_nil]
+  | cons e rest ih =>
+    obtain ⟨x, vv⟩ := e
+    have hd : Hdr.del ((x, vv) :: rest) k' = if x ≠ k' then (x, vv) :: Hdr.del rest k' else Hdr.del rest k' := by
+      unfold Hdr.del; simp [List.filter_cons]
+    rw [hd]
+    by_cases hx : x = k'
+    · subst hx
+      simp only [ne_eq, not_true_eq_false, if_false, ih, get?_cons]
+      by_cases hk : k = x
+      · simp [hk]
+      · have : x ≠ k := fun h => hk h.symm
+        simp [hk, this]
+    · simp only [ne_eq, hx, not_false_eq_true, if_true, get?_cons, ih]
+      by_cases hk : x = k
+      · subst hk; simp [hx]
+      · simp [hk]
+
+theorem get?_append (h1 h2 : Hdr) (k : Str) :
+    (h1 ++ h2).get? k = match h1.get? k with | some v => some v | none => h2.get? k := by
+  induction h1 with
+  | nil => simp [get?_nil]
+  | cons e rest ih =>
+    obtain ⟨x, vv⟩ := e
+    show Hdr.get? ((x, vv) :: (rest ++ h2)) k = _
+    rw [get?_cons, get?_cons]
+    by_cases hk : x = k
+    · simp [hk]
+    · simp [hk, ih]
+
+theorem get?_set (h : Hdr) (k k' v : Str) : (h.set k' v).get? k = if k = k' then some [v] else h.get? k := by
+  unfold Hdr.set
+  rw [get?_append, get?_del]
+  by_cases hk : k = k'
+  · subst hk; simp [get?_cons]
+  · have : k' ≠ k := fun h => hk h.symm
+    simp only [hk, if_false, get?_cons, this, get?_nil]
+    cases h.get? k <;> rfl
+
+theorem get?_delAll (ks : List Str) (h : Hdr) (k : Str) : (delAll ks h).get? k = if k ∈ ks then none else h.get? k := by
+  induction ks generalizing h with
+  | nil => simp [delAll]
+  | cons x xs ih =>
+    show (delAll xs (h.del x)).get? k = _
+    rw [ih, get?_del]
+    by_cases hx : k = x
+    · simp [hx]
+    · by_cases hxs : k ∈ xs <;> simp [hx, hxs]
+
+theorem values_eq (h : Hdr) (k : Str) : h.values k = (h.get? k).getD [] := rfl
+
+theorem get?_add (h : Hdr) (k k' v : Str) :
+    (h.add k' v).get? k = if k = k' then some (h.values k ++ [v]) else h.get? k := by
+  induction h with
+  | nil =>
+    rw [Hdr.add, get?_cons, get?_nil]
+    by_cases hk : k = k'
+    · subst hk; simp [values_eq, get?_nil]
+    · have : k' ≠ k := fun h => hk h.symm
+      simp [hk, this]
+  | cons e rest ih =>
+    obtain ⟨x, vv⟩ := e
+    rw [Hdr.add]
+    by_cases hx : x = k'
+    · subst hx
+      simp only [if_true, get?_cons]
+      by_cases hk : x = k
+      · subst hk; simp [values_eq, get?_cons]
+      · have : k ≠ x := fun h => hk h.symm
+        simp [hk, this]
+    · simp only [hx, if_false, get?_cons, ih]
+      by_cases hk : x = k
+      · subst hk; simp [hx]
+      · by_cases hk' : k = k'
+        · subst hk'; simp [hk, values_eq, get?_cons]
+        · simp [hk, hk']
+
+theorem values_add (h : Hdr) (k k' v : Str) :
+    (h.add k' v).values k = if k = k' then h.values k ++ [v] else h.values k := by
+  rw [values_eq, get?_add]
+  by_cases hk : k = k' <;> simp [hk, values_eq]
+
+/-- keys of a header map: `Add` never duplicates a key -/
+theorem keys_add (h : Hdr) (k v : Str) : (h.add k v).keys = if k ∈ h.keys then h.keys else h.keys ++ [k] := by
+  induction h with
+  | nil => simp [Hdr.add, Hdr.keys]
+  | cons e rest ih =>
+    obtain ⟨x, vv⟩ := e
+    rw [Hdr.add]
+    by_cases hx : x = k
+    · subst hx; simp [Hdr.keys]
+    · have hne : k ≠ x := fun h => hx h.symm
+      simp only [hx, if_false]
+      show x :: (Hdr.add rest k v).keys = _
+      rw [ih]
+      by_cases hk : k ∈ Hdr.keys rest
+      · have : k ∈ Hdr.keys ((x, vv) :: rest) := List.mem_cons_of_mem _ hk
+        rw [if_pos hk, if_pos this]; rfl
+      · have : k ∉ Hdr.keys ((x, vv) :: rest) := by
+          intro hm
+          rcases List.mem_cons.mp hm with h1 | h1
+          · exact hne h1
+          · exact hk h1
+        rw [if_neg hk, if_neg this]; rfl
+
+theorem nodup_keys_add (h : Hdr) (k v : Str) (hn : h.keys.Nodup) : (h.add k v).keys.Nodup := by
+  rw [keys_add]
+  by_cases hk : k ∈ h.keys
+  · simp [hk, hn]
+  · simp only [hk, if_false]
+    rw [List.nodup_append]
+    refine ⟨hn, by simp, ?_⟩
+    intro a ha b hb
+    simp only [List.mem_cons, List.not_mem_nil, or_false] at hb
+    subst hb
+    intro hab; subst hab; exact hk ha
+
+theorem nodup_keys_foldl_add (lines : List (Str × Str)) (h : Hdr) (hn : h.keys.Nodup) :
+    (lines.foldl (fun h l => h.add (canonKey l.1) l.2) h).keys.Nodup := by
+  induction lines generalizing h with
+  | nil => exact hn
+  | cons l ls ih => exact ih _ (nodup_keys_add h _ _ hn)
+
+theorem nodup_keys_parseHeaders (lines : List (Str × Str)) : (parseHeaders lines).keys.Nodup :=
+  nodup_keys_foldl_add lines [] (by simp [Hdr.keys])
+
+theorem nodup_keys_del (h : Hdr) (k : Str) (hn : h.keys.Nodup) : (h.del k).keys.Nodup := by
+  unfold Hdr.del Hdr.keys
+  exact List.Nodup.sublist (List.Sublist.map _ List.filter_sublist) hn
+
+theorem nodup_keys_delAll (ks : List Str) (h : Hdr) (hn : h.keys.Nodup) : (delAll ks h).keys.Nodup := by
+  induction ks generalizing h with
+  | nil => exact hn
+  | cons x xs ih => exact ih _ (nodup_keys_del h x hn)
+
+/-- every key of a well-formed header map has at least one value -/
+def WF (h : Hdr) : Prop := ∀ k, h.get? k ≠ some []
+
+theorem wf_add (h : Hdr) (k v : Str) (hw : WF h) : WF (h.add k v) := by
+  intro x
+  rw [get?_add]
+  by_cases hx : x = k
+  · simp [hx]
+  · simp only [hx, if_false]; exact hw x
+
+theorem wf_foldl_add (lines : List (Str × Str)) (h : Hdr) (hw : WF h) :
+    WF (lines.foldl (fun h l => h.add (canonKey l.1) l.2) h) := by
+  induction lines generalizing h with
+  | nil => exact hw
+  | cons l ls ih => exact ih _ (wf_add h _ _ hw)
+
+theorem wf_parseHeaders (lines : List (Str × Str)) : WF (parseHeaders lines) :=
+  wf_foldl_add lines [] (by intro k; simp [get?_nil])
+
+theorem wf_del (h : Hdr) (k : Str) (hw : WF h) : WF (h.del k) := by
+  intro x
+  rw [get?_del]
+  by_cases hx : x = k
+  · simp [hx]
+  · simp only [hx, if_false]; exact hw x
+
+theorem get?_none_of_not_key (h : Hdr) (k : Str) (hk : k ∉ h.keys) : h.get? k = none := by
+  induction h with
+  | nil => exact get?_nil k
+  | cons e rest ih =>
+    obtain ⟨x, vv⟩ := e
+    simp only [Hdr.keys, List.map_cons, List.mem_cons, not_or] at hk
+    rw [get?_cons]
+    have : x ≠ k := fun h => hk.1 h.symm
+    simp only [this, if_false]
+    exact ih (by simpa [Hdr.keys] using hk.2)
+
+/-- `copyHeader(dst, src)`: per name, the destination's values followed by the source's -/
+theorem values_copyHeader (dst src : Hdr) (k : Str) (hn : src.keys.Nodup) :
+    (copyHeader dst src).values k = dst.values k ++ src.values k := by
+  unfold copyHeader
+  induction src generalizing dst with
+  | nil => simp [values_eq, get?_nil]
+  | cons e rest ih =>
+    obtain ⟨x, vv⟩ := e
+    have hn' : (x :: Hdr.keys rest).Nodup := hn
+    have hx : x ∉ Hdr.keys rest := (List.nodup_cons.mp hn').1
+    have hrest : (Hdr.keys rest).Nodup := (List.nodup_cons.mp hn').2
+    clear hn hn'
+    have hinner : ∀ (d : Hdr), (vv.foldl (fun d v => d.add x v) d).values k = if k = x then d.values k ++ vv else d.values k := by
+      induction vv with
+      | nil => intro d; simp
+      | cons v vs ihv =>
+        intro d
+        show (vs.foldl (fun d v => d.add x v) (d.add x v)).values k = _
+        rw [ihv, values_add]
+        by_cases hk : k = x <;> simp [hk]
+    show (rest.foldl (fun d e => e.2.foldl (fun d v => d.add e.1 v) d) (vv.foldl (fun d v => d.add x v) dst)).values k = _
+    rw [ih _ hrest, hinner]
+    by_cases hk : k = x
+    · subst hk
+      have : Hdr.values rest k = [] := by rw [values_eq, get?_none_of_not_key rest k hx]; rfl
+      simp [this, values_eq, get?_cons]
+    · have : x ≠ k := fun h => hk h.symm
+      simp [hk, values_eq, get?_cons, this]
 
 end KG.Lemmas.Forward
